@@ -328,7 +328,9 @@ def oracle(c, obs):
     md_ax, md_ot = ('omd', 'smd') if axis == 'observation' else ('smd', 'omd')
     sc = T.spec_content(spec)
     for key, idk, kept in ((md_ax, ax, r[ax]), (md_ot, ot, r[ot])):
-        want_md = None if sc[key] is None or not kept else [sc[key][sc[idk].index(x)] for x in kept]
+        want_md = None if sc[key] is None else [sc[key][sc[idk].index(x)] for x in kept]
+        if want_md is not None and not any(want_md):
+            want_md = None         # Table.filter ends with _cast_metadata: entries all empty -> None
         if canon(r[key]) != canon(want_md):
             fails.append('metadata on %s did not travel with its ids' % idk)
     if r['type'] != sc['type']:
@@ -433,7 +435,7 @@ def gen_case(rng, kind=None, spec=None, axis=None, n=None):
     if spec is None:
         r, c = rng.randint(1, 5), rng.randint(1, 5)
         spec = T.rand_spec(rng, min_r=r, max_r=r, min_c=c, max_c=c, values='counts',
-                           md=rng.choice(['none', 'none', 'group', 'text', 'obs', 'samp']))
+                           md=rng.choice(['none', 'none', 'group', 'text', 'obs', 'samp', 'partial', 'partial']))
         spec['mat'] = _rand_counts(rng, r, c)
     axis = axis or rng.choice(['observation', 'sample'])
     kind = kind or rng.choice(['counts'] * 11 + ['replace'] * 4 + ['by_id'] * 4 + ['refuse'])
